@@ -1528,3 +1528,75 @@ def rule_s(ctx: Ctx) -> None:
                                                  f"multiple of the step (an argument count chosen by the input) raises IndexError")
     ctx.count("stepped_walks", n)
     ctx.min_instances("stepped_walks", n, 2)
+
+
+def _fallthrough_uses(fn: ast.AST) -> list[tuple[ast.If, str, ast.AST]]:
+    """`if not X: self.raise_error(...)` without an exit, followed in the same block by X.attr / X[...] / *X outside any test of X."""
+    out = []
+    parents: dict[int, ast.AST] = {}
+    for x in ast.walk(fn):
+        for ch in ast.iter_child_nodes(x):
+            parents[id(ch)] = x
+    for blk in ast.walk(fn):
+        for fld in ("body", "orelse", "finalbody"):
+            seq = getattr(blk, fld, None)
+            if not isinstance(seq, list):
+                continue
+            for i, st in enumerate(seq):
+                if not (isinstance(st, ast.If) and isinstance(st.test, ast.UnaryOp) and isinstance(st.test.op, ast.Not) and isinstance(st.test.operand, ast.Name) and not st.orelse):
+                    continue
+                last = st.body[-1]
+                if not (isinstance(last, ast.Expr) and isinstance(last.value, ast.Call) and norm(last.value.func) == "self.raise_error"):
+                    continue
+                x = st.test.operand.id
+                for later in seq[i + 1:]:
+                    if any(isinstance(a, ast.Assign) and any(isinstance(t_, ast.Name) and t_.id == x for t_ in a.targets) for a in ast.walk(later)):
+                        break  # rebound
+                    for u in ast.walk(later):
+                        if isinstance(u, (ast.Starred, ast.Attribute, ast.Subscript)) and isinstance(getattr(u, "value", None), ast.Name) and u.value.id == x:
+                            # guarded by a test of X?
+                            cur: ast.AST = u
+                            guarded = False
+                            while id(cur) in parents and cur is not later:
+                                par = parents[id(cur)]
+                                if isinstance(par, (ast.IfExp, ast.If)) and any(isinstance(n_, ast.Name) and n_.id == x for n_ in ast.walk(par.test)) and cur is not par.test:
+                                    guarded = True
+                                    break
+                                if isinstance(par, ast.BoolOp) and isinstance(par.op, ast.And) and any(isinstance(v, ast.Name) and v.id == x for v in par.values[: par.values.index(cur)] if cur in par.values):
+                                    guarded = True
+                                    break
+                                cur = par
+                            if not guarded:
+                                out.append((st, x, u))
+    return out
+
+
+def rule_t(ctx: Ctx) -> None:
+    ctx.rule(
+        "C05.t",
+        "a value reported missing is not used as if present: `if not X: self.raise_error(...)` only raises at the IMMEDIATE level; when the branch has no exit, the code after it "
+        "still runs with the empty / missing X at the other levels, so every later X.attr, X[...] or *X in that block is guarded by a test of X — otherwise the non-raising levels leak "
+        "AttributeError / IndexError / ValueError",
+    )
+    probe = ast.parse("def f(self, c):\n    args = self.p()\n    if not args:\n        self.raise_error('x')\n    return c(*args)\n").body[0]
+    ctx.require(len(_fallthrough_uses(probe)) == 1, "positive control failed: fall-through use not recognised")
+    n = 0
+    for m in ctx.repo.modules.values():
+        if not (m.name == "sqlglot.parser" or m.name.startswith("sqlglot.parsers.")):
+            continue
+        for f in m.funcs.values():
+            if ".<locals>." in f.qualname:
+                continue
+            ifs = [st for st in ast.walk(f.node) if isinstance(st, ast.If) and isinstance(st.test, ast.UnaryOp) and isinstance(st.test.op, ast.Not) and isinstance(st.test.operand, ast.Name)
+                   and not st.orelse and isinstance(st.body[-1], ast.Expr) and isinstance(st.body[-1].value, ast.Call) and norm(st.body[-1].value.func) == "self.raise_error"]
+            n += len(ifs)
+            bad = _fallthrough_uses(f.node)
+            flagged = {id(st) for st, _, _ in bad}
+            for st in ifs:
+                if id(st) not in flagged:
+                    ctx.ok(f"{f.key}|{norm(st.test)} reported, not used unguarded afterwards", None)
+            for st, x, u in bad:
+                ctx.fail(m, u, f.key, u, f"`{norm(u, 40)}` uses `{x}` after `if not {x}: self.raise_error(...)` (line {st.lineno}) fell through: at the WARN / RAISE / IGNORE levels the error is only "
+                                         f"recorded and this line runs with the missing value")
+    ctx.count("reported_missing_values", n)
+    ctx.min_instances("reported_missing_values", n, 5)
